@@ -583,7 +583,21 @@ def check_C12(ctx):
         a1, _ = res[cases[s + 1]["id"]]
         if not accepted(a1):
             ctx.violation("required", "spec %r argv %r with VE_E set is rejected" % (cases[s]["root"]["spec"], cases[s]["argv"]), case=cases[s + 1])
-    ctx.stream("env subsets", 0, lines=len(groups), pairs=pairs)
+    # how many lines read cleanly (hypothesis of C12_env_only_enlarges; the reading ignores the environment)
+    vq = [{"op": "views", "id": "v%d" % gi, "env": {}, "decls": cases[s]["root"]["decls"], "spec": cases[s]["root"]["spec"],
+           "argvs": [cases[s]["argv"]]} for gi, (s, e) in enumerate(groups)]
+    vm = core.run_model(vq)
+    cov = {"lines": len(groups), "under_theorem": 0, "unreadable_or_q1": 0, "not_sane": 0}
+    for gi in range(len(groups)):
+        r = vm.get("v%d" % gi)
+        if isinstance(r, list) and r[0] == "ok":
+            if r[1] != "1":
+                cov["not_sane"] += 1
+            elif r[3][0] == "none":
+                cov["unreadable_or_q1"] += 1
+            else:
+                cov["under_theorem"] += 1
+    ctx.stream("env subsets", 0, lines=len(groups), pairs=pairs, theorem_C12_env_only_enlarges=cov)
     ctx.sample({"spec": "[OPTIONS] X", "argv": ["-e", "a", "-e", "b", "x"], "env": [{}, {"VE_E": "v"}]})
     return ("command lines of random --free specs whose options carry environment variables x every subset of those "
             "variables set (up to 8 subsets) compared with the empty environment on the implementation: acceptance is "
